@@ -482,6 +482,82 @@ def rule_unmapped(ctx):
     ctx.need(n >= 2, 'no mapping-dependent treatment in the property loops')
 
 
+def rule_own_copy(ctx):
+    """A Model owns its parameter arrays: what _init_parameter returns (and
+    __init__ stores, and the in-place setters later overwrite) must be a new
+    array on every path, never the caller's object or a view of it.
+    np.asfortranarray / np.asarray / reshape return the input itself when no
+    conversion is needed."""
+    mm = ctx.repo.mod('emg3d/models.py')
+    fn = mm.method('Model', '_init_parameter')
+    par = au.params(fn)[1]
+    NOCOPY = ('np.asfortranarray', 'np.asarray', 'np.asanyarray',
+              'np.ascontiguousarray', 'np.atleast_1d', 'np.squeeze',
+              'np.ravel')
+    COPY = ('np.array', 'np.copy', 'np.full', 'np.ones', 'np.zeros',
+            'np.empty', 'np.require')
+
+    def fresh(e, env):
+        """Is the value of e a new array (not aliasing the parameter)?"""
+        if isinstance(e, ast.Name):
+            return env.get(e.id, e.id != par)
+        if isinstance(e, ast.BinOp):
+            return True                      # arithmetic allocates
+        if isinstance(e, ast.Call):
+            f = ast.unparse(e.func)
+            if f in COPY:
+                return not any(k.arg == 'copy' and ast.unparse(k.value) ==
+                               'False' for k in e.keywords)
+            if f in NOCOPY:
+                return all(fresh(a, env) for a in e.args[:1])
+            if isinstance(e.func, ast.Attribute):
+                if e.func.attr == 'copy':
+                    return True
+                if e.func.attr in ('reshape', 'view', 'ravel', 'squeeze',
+                                   'transpose', 'astype'):
+                    if e.func.attr == 'astype' and not any(
+                            k.arg == 'copy' for k in e.keywords):
+                        return True
+                    return fresh(e.func.value, env)
+        if isinstance(e, ast.Constant):
+            return True
+        return False
+    # flow-sensitive over the straight-line / if-else structure: at a join a
+    # name is fresh only if it is fresh on both arms
+    verdicts = []
+
+    def walk(stmts, env):
+        env = dict(env)
+        for st in stmts:
+            if isinstance(st, ast.Assign):
+                v = fresh(st.value, env)
+                for t in st.targets:
+                    if isinstance(t, ast.Name):
+                        env[t.id] = v
+            elif isinstance(st, ast.If):
+                e1 = walk(st.body, env)
+                e2 = walk(st.orelse, env)
+                for k in set(e1) | set(e2):
+                    env[k] = e1.get(k, env.get(k, k != par)) and \
+                        e2.get(k, env.get(k, k != par))
+            elif isinstance(st, ast.Return) and st.value is not None and \
+                    not (isinstance(st.value, ast.Constant) and
+                         st.value.value is None):
+                verdicts.append((st, fresh(st.value, env)))
+        return env
+    walk(au.body_nodoc(fn), {par: False})
+    ctx.anchor(len(verdicts) >= 1, 'return of Model._init_parameter')
+    for r, okr in verdicts:
+        ctx.check('C14.M3.own', f'Model._init_parameter `{au.stext(r)}`',
+                  okr, 'the stored parameter array can be '
+                  'the caller\'s own array (or a view of it) when that is '
+                  'already float64 and Fortran-contiguous: the in-place '
+                  'setters then write into the caller\'s array and into '
+                  'every other property built from it, and later changes of '
+                  'that array reach the model unvalidated',
+                  ctx.where(mm, r))
+
+
 def run(ctx):
     ctx.explanation = (
         'forward/backward/derivative_chain of the six Map classes are lifted '
@@ -497,6 +573,7 @@ def run(ctx):
     rule_validation(ctx)
     rule_taint(ctx)
     rule_unmapped(ctx)
+    rule_own_copy(ctx)
     # computing with a model must not change it (MapConductivity.backward
     # hands out the model's own array): shared with C02
     from . import c02
